@@ -145,7 +145,7 @@ def check_extend_callers(ctx, cfg):
     return n
 
 
-def check_finish_window(ctx, cfg, rule="C04.F"):
+def check_finish_window(ctx, cfg, rule="C04.F", only=None):
     """After a builder is finished (its drop guard disarmed) the initialised storage has no owner until
     array_assume_init / Box::from_raw / the function's return hands it on: no call that can run foreign code
     (or return early with an error) may sit in that window."""
@@ -155,7 +155,7 @@ def check_finish_window(ctx, cfg, rule="C04.F"):
     for b in db.bodies:
         if b["kind"] not in ("Fn", "AssocFn"):
             continue
-        if ctx.is_helper(cfg, b):
+        if ctx.is_helper(cfg, b) or (only is not None and b["key"] not in only):
             continue  # judged inlined in its callers, where the storage is handed on
         # path-exact after the last loop (tree-shaped suffix): a finish() on one branch is followed by that branch's own hand-over
         a = ctx.analysis_inl(cfg, b["key"], split=True)
